@@ -411,6 +411,10 @@ func unaryBody(r *engine.Run, e *env) strBody {
 				obs = obs[2:]
 			}
 			exp, nt := spec(k)
+			if exp == "outside-model" { // case mapping of a code point the model's table does not cover
+				r.Skip()
+				continue
+			}
 			judge(r, k, key, exp, obs, nt)
 		}
 	}
@@ -543,4 +547,43 @@ func runLen4(r *engine.Run) {
 	r.Bound("strings", fmt.Sprint(n))
 	r.Bound("routes", "dot (primitive receiver), representation u16")
 	r.Bound("search_strings", fmt.Sprint(len(short)))
+}
+
+// ---------------------------------------------------------------- boundary: the first / last code point of every UTF-8 and UTF-16 length class
+
+// The unit-indexing methods are run on strings built from the boundary code
+// points of the encodings (1/2/3/4-byte UTF-8, BMP below and above the surrogate
+// range, first and last supplementary code points), alone, doubled and flanked by
+// ASCII, with the complete position alphabets.
+var boundaryCodePoints = []rune{0x7F, 0x80, 0x7FF, 0x800, 0xD7FF, 0xE000, 0xFFFF, 0x10000, 0x10001, 0xFFFFF, 0x100000, 0x10FFFF}
+
+func runBoundary(r *engine.Run) {
+	e := newEnv(r)
+	short := allStrings(1)
+	bodies := []strBody{charAtBody(r, e), unaryBody(r, e), indexOfBodyWith(r, e, short), sliceBody(r, e), splitBodyWith(r, e, short)}
+	n := 0
+	for _, cp := range boundaryCodePoints {
+		for _, rs := range [][]rune{{cp}, {'a', cp, 'b'}, {cp, cp}, {cp, 'a'}} {
+			s := mkStr(str16.Encode(rs))
+			n++
+			for _, rt := range []route{routes[0], routes[1]} {
+				for _, repr := range reprNames {
+					sv, ok := s.val(repr)
+					if !ok {
+						continue
+					}
+					if r.Expired() {
+						r.Cap("time budget reached")
+						return
+					}
+					for _, b := range bodies {
+						b(rt, repr, s, sv)
+					}
+				}
+			}
+		}
+	}
+	r.Bound("code_points", fmt.Sprintf("%X", boundaryCodePoints))
+	r.Bound("strings", fmt.Sprintf("%d (each code point alone, doubled, followed by and flanked by ASCII)", n))
+	r.Bound("routes", "dot, objdot; both representations")
 }
